@@ -12,6 +12,7 @@ offer the same enabled sets, and end with the same per-thread outcomes.
 `model_guided` (bottom of the file) goes the other way round: schedules are chosen on the model so that
 they cover its program points, then replayed on the real code (used by `extra(ctx)` of C04/C05).
 """
+import asyncio
 import logging
 import random
 
@@ -20,12 +21,33 @@ from harness.sched import shim
 
 TIMEOUT_SECS = 1.0   # any non-None value: the scheduler decides whether it "fires"
 
+# Fault alphabet of a source item (round 8): 'fail' raises ValueError; the others raise a BaseException that is NOT an
+# Exception.  The model has one failing item (`Item.fail`); the class only matters to the oracle ("THAT exception").
+FAULTS = {'fail': ValueError, 'fail:kbd': KeyboardInterrupt, 'fail:exit': SystemExit, 'fail:genexit': GeneratorExit,
+          'fail:cancel': asyncio.CancelledError}
+
+
+def is_fail(it):
+  return isinstance(it, str) and it in FAULTS
+
+
+def exc_obs(e, injected):
+  """Canonical outcome of a thread that ended with exception `e`.  An exception object injected by the harness into a
+  source (whatever its class) is THE failure: kind 'ValueError' as in the model; `cls` keeps the real class name and
+  `same` says that it is the very object that was raised in the producer (the oracle looks at both)."""
+  same = any(e is x for x in injected)
+  d = {'raise': 'ValueError' if same else (err_kind(e) if isinstance(e, Exception) else 'Base:' + type(e).__name__)}
+  if isinstance(e, StopIteration):
+    d['args'] = list(e.args)
+  return d, dict(cls=type(e).__name__, same=same)
+
 
 class Source:
   """A producer's source iterator; every `next` is a scheduler yield point labelled 'next'."""
 
-  def __init__(self, sched, items, ret):
+  def __init__(self, sched, items, ret, injected=None):
     self.s, self.items, self.ret, self.i = sched, list(items), ret, 0
+    self.injected = injected if injected is not None else []
 
   def __iter__(self):
     return self
@@ -36,9 +58,45 @@ class Source:
       raise StopIteration(self.ret)
     it = self.items[self.i]
     self.i += 1
-    if it == 'fail':
-      raise ValueError(f'source failed at {self.i - 1}')
+    if is_fail(it):
+      e = FAULTS[it](f'source failed at {self.i - 1}')
+      self.injected.append(e)
+      raise e
     return it
+
+
+def phased_chooser(spec, record):
+  """Directed event orders (round 8, "observers after the fact"): `phases` = [{tids:[...], until:{tid, nexts}?}, ...].
+  The chooser runs, among the enabled threads, one of the EARLIEST phase (from the current one on) that has an enabled
+  thread, uniformly at random (seeded); threads of no / an earlier phase come last.  A phase with `until` ends for good
+  as soon as thread `tid` has executed `nexts` source pulls and its pending operation is the next pull (so the stopper
+  of the following phase lands while that producer is inside next()).  With a timeout configured the timeout
+  alternatives are taken with probability `tw`."""
+  rng = random.Random(spec['seed'])
+  phases = spec['phases']
+  cur = [0]
+  tw = spec.get('tw', 0.0)
+
+  def until_holds(u, sched):
+    t = sched.threads[u['tid']] if u['tid'] < len(sched.threads) else None
+    if t is None or t.done or t.pending is None or t.pending.label != 'next':
+      return False
+    return sum(1 for tid, l in sched.trace if tid == u['tid'] and l == 'next') >= u['nexts']
+
+  def choose(opts, sched):
+    record.append([[t, a] for t, a in opts])
+    normal = [i for i, (_, a) in enumerate(opts) if a is None]
+    alt = [i for i, (_, a) in enumerate(opts) if a is not None]
+    if alt and (not normal or rng.random() < tw):
+      return rng.choice(alt)
+    while cur[0] < len(phases) - 1 and phases[cur[0]].get('until') and until_holds(phases[cur[0]]['until'], sched):
+      cur[0] += 1
+    for ph in phases[cur[0]:]:
+      cand = [i for i in normal if opts[i][0] in ph['tids']]
+      if cand:
+        return rng.choice(cand)
+    return rng.choice(normal)
+  return choose
 
 
 def make_chooser(spec, record):
@@ -55,6 +113,8 @@ def make_chooser(spec, record):
         return None
       return inner(opts, sched)
     return choose
+  if kind == 'phased':
+    return phased_chooser(spec, record)
   rng = random.Random(spec['seed'])
   inner = (shim.priority_chooser(rng, change_points=spec.get('changes', 3), horizon=spec.get('horizon', 150))
            if kind == 'pct' else shim.random_chooser(rng, timeout_weight=spec.get('tw', 0.03)))
@@ -71,7 +131,16 @@ def run_real(case, max_steps=6000):
   enabled_rec = []
   sched = shim.Scheduler(make_chooser(case['sched'], enabled_rec), max_steps=max_steps)
   outcomes = {}
+  injected = []        # the exception objects raised by the sources (identity matters to the oracle)
   err = None
+  post = None
+
+  def ended(i, got, e):
+    if isinstance(e, shim._Killed):      # the scheduler tearing the run down: not an outcome
+      raise e
+    o, info = exc_obs(e, injected)
+    outcomes[i] = dict(received=got, outcome=o, exc=info)
+
   with shim.patched(sched, [iter_utils]):
     q = iter_utils.IteratorQueue(case['cap'], max_enqueuer=case['max_enq'],
                                  timeout=TIMEOUT_SECS if case['timeout'] else None)
@@ -80,8 +149,8 @@ def run_real(case, max_steps=6000):
       try:
         q.enqueue_from_iterator(src)
         outcomes[i] = dict(received=[], outcome=None)
-      except Exception as e:  # pylint: disable=broad-except
-        outcomes[i] = dict(received=[], outcome={'raise': err_kind(e)})
+      except BaseException as e:  # pylint: disable=broad-except
+        ended(i, [], e)
 
     def get_loop(i):
       got = []
@@ -89,10 +158,8 @@ def run_real(case, max_steps=6000):
       try:
         while True:
           got.append(q.get())
-      except StopIteration as e:
-        outcomes[i] = dict(received=got, outcome={'raise': 'StopIteration', 'args': list(e.args)})
-      except Exception as e:  # pylint: disable=broad-except
-        outcomes[i] = dict(received=got, outcome={'raise': err_kind(e)})
+      except BaseException as e:  # pylint: disable=broad-except
+        ended(i, got, e)
 
     def batch_loop(i, mx, block):
       got = []
@@ -100,22 +167,20 @@ def run_real(case, max_steps=6000):
       try:
         while True:
           got.extend(q.get_batch(mx, block=block))
-      except StopIteration as e:
-        outcomes[i] = dict(received=got, outcome={'raise': 'StopIteration', 'args': list(e.args)})
-      except Exception as e:  # pylint: disable=broad-except
-        outcomes[i] = dict(received=got, outcome={'raise': err_kind(e)})
+      except BaseException as e:  # pylint: disable=broad-except
+        ended(i, got, e)
 
     def stopper(i, exc):
       try:
         q.maybe_stop(None if exc is None else ValueError('stop requested'))
         outcomes[i] = dict(received=[], outcome=None)
-      except Exception as e:  # pylint: disable=broad-except
-        outcomes[i] = dict(received=[], outcome={'raise': err_kind(e)})
+      except BaseException as e:  # pylint: disable=broad-except
+        ended(i, [], e)
 
     for i, p in enumerate(case['threads']):
       k = p['kind']
       if k == 'producer':
-        sched.spawn(f't{i}', producer, i, Source(sched, p['src'], p['ret']))
+        sched.spawn(f't{i}', producer, i, Source(sched, p['src'], p['ret'], injected))
       elif k == 'get':
         sched.spawn(f't{i}', get_loop, i)
       elif k == 'batch':
@@ -126,15 +191,18 @@ def run_real(case, max_steps=6000):
       outcome = sched.run()
     except shim.SchedulerError as e:
       outcome, err = 'schedule_rejected', str(e)
+    if outcome == 'done' and case.get('post'):
+      post = post_probes(q, case['post'], injected, len(all_values(case)) + 2)
   logging.disable(logging.NOTSET)
-  threads = []
+  threads, excs = [], []
   for i, _ in enumerate(case['threads']):
     t = sched.threads[i]
     o = outcomes.get(i)
     threads.append(dict(done=bool(t.done and o is not None and not o.get('running')),
                         received=list((o or {}).get('received', [])),
                         outcome=(o or {}).get('outcome')))
-  return dict(
+    excs.append((o or {}).get('exc'))
+  obs = dict(
       outcome=outcome, err=err,
       choices=[[t, a] for t, a in sched.choices],
       trace=[[t, l] for t, l in sched.trace],
@@ -142,16 +210,67 @@ def run_real(case, max_steps=6000):
       threads=threads,
       blocked=[list(b) for b in sched.blocked],
   )
+  if any(excs):
+    obs['excs'] = excs           # real class of every thread's final exception, and whether it is the injected object
+  if post is not None:
+    obs['post'] = post
+  return obs
+
+
+def post_probes(q, kinds, injected, bound):
+  """Observers AFTER the fact: when every thread of the run has finished, the (unmanaged) main thread calls the
+  queue's public consumer API again -- a second / third consumer arriving late.  Each probe drains what is left and
+  reports how it ended.  Under the shim an unmanaged thread that would block raises SchedulerError: reported as
+  'would_block' (= an indefinite wait)."""
+  import queue as _q
+  out = dict(exception=None if q.exception is None else exc_obs(q.exception, injected)[1], probes=[])
+  for kind in kinds:
+    vals, end, info = [], None, None
+    try:
+      if kind == 'iter':
+        it = iter(q)
+      for _ in range(bound):
+        if kind == 'get':
+          vals.append(q.get())
+        elif kind == 'get_nowait':
+          vals.append(q.get_nowait())
+        elif kind == 'get_batch':
+          r = q.get_batch()
+          if not r:
+            end = {'raise': 'EmptyBatch'}       # [] from a finished queue: the caller's loop would spin for ever
+            break
+          vals.extend(r)
+        elif kind == 'iter':
+          vals.append(next(it))
+      else:
+        end = {'raise': 'NeverEnds'}
+    except (_q.Empty, asyncio.QueueEmpty):
+      end = {'raise': 'Empty'}
+    except shim.SchedulerError:
+      end = {'raise': 'would_block'}
+    except BaseException as e:  # pylint: disable=broad-except
+      end, info = exc_obs(e, injected)
+    out['probes'].append(dict(kind=kind, values=vals, end=end, exc=info))
+    if end == {'raise': 'would_block'}:
+      break                        # the probe left a lock / wait list half-way: later probes would be meaningless
+  out['exception_after'] = None if q.exception is None else exc_obs(q.exception, injected)[1]
+  return out
 
 
 def model_request(case, choices):
   return dict(model='queue', cap=case['cap'], max_enq=case['max_enq'], timeout=case['timeout'],
-              ignore_error=False, threads=case['threads'],
+              ignore_error=False, threads=model_threads(case),
               schedule=[c[0] if c[1] is None else [c[0], c[1]] for c in choices])
 
 
+def model_threads(case):
+  """the programs as the model takes them: every fault class is the model's one failing item"""
+  return [dict(p, src=['fail' if is_fail(v) else v for v in p['src']]) if p['kind'] == 'producer' else p
+          for p in case['threads']]
+
+
 def all_values(case):
-  return sorted(v for p in case['threads'] if p['kind'] == 'producer' for v in p['src'] if v != 'fail')
+  return sorted(v for p in case['threads'] if p['kind'] == 'producer' for v in p['src'] if not is_fail(v))
 
 
 def gen_threads(rng, nprod, ncons, maxlen, fail_p=0.0, batch_p=0.5, stopper=None):
@@ -263,7 +382,7 @@ def shrink_schedule_case(case, fails):
 
 def cover_request(cfg, seed, walks, max_len):
   return dict(model='queue', op='cover', cap=cfg['cap'], max_enq=cfg['max_enq'], timeout=cfg['timeout'],
-              ignore_error=False, threads=cfg['threads'], seed=seed, walks=walks, max_len=max_len)
+              ignore_error=False, threads=model_threads(cfg), seed=seed, walks=walks, max_len=max_len)
 
 
 def model_guided(ctx, configs, seed, unreachable=None, oracle=None, walks=None, max_len=600, stage='model_guided'):
